@@ -112,6 +112,9 @@ pub struct SinkStats {
     pub zero_fired: u64,
 }
 
+/// Calls tolerated after a hard fault before the sink unwinds the render (see `write`).
+pub const SINK_RUNAWAY_LIMIT: usize = 20_000;
+
 pub struct SimSink {
     plan: FaultPlan,
     rng: crate::prng::Rng,
@@ -170,6 +173,11 @@ impl io::Write for SimSink {
         if self.hard_returned {
             self.calls_after_hard += 1;
             self.bytes_after_hard += buf.len();
+            if self.calls_after_hard > SINK_RUNAWAY_LIMIT {
+                // a library that keeps retrying a failed sink for ever must end as a violation
+                // ("performs no further writes"), not as a hang of the checker
+                panic!("SINK-RUNAWAY: {} write calls after the sink had failed", self.calls_after_hard);
+            }
             let sticky = self.plan.hard.map(|h| h.sticky).unwrap_or(true);
             if sticky {
                 return Err(self.hard_kind_for_sticky.to_err());
